@@ -244,7 +244,13 @@ func RunLinalg(c *core.Ctx) {
 	vals, desc := genDegenerate(t, n, m)
 	opt := t.Choose(4)
 	a := mkMat(real, vals, n, m)
-	c.Logf("%s(opt=%d) on %dx%d %s matrix, real64=%v: %v", alg, opt, n, m, desc, real, vals)
+	// single precision: the algorithms have dedicated float32 paths (cholesky)
+	// or run their generic code with thresholds chosen for doubles
+	single := !real && t.Bool(1, 5)
+	if single {
+		a = ad.AsDenseFloat32Matrix(a)
+	}
+	c.Logf("%s(opt=%d) on %dx%d %s matrix, real64=%v float32=%v: %v", alg, opt, n, m, desc, real, single, vals)
 	var shapeErr string
 	call := func() {
 		switch alg {
@@ -318,7 +324,7 @@ func RunLinalg(c *core.Ctx) {
 		structure = structure[:12]
 	}
 	if over != nil {
-		c.Fail("step-clock", alg+"|"+over.Site+"|budget-exceeded", "%s did not finish: loop %s was still running after %d iterations (budget %d for dimension %d) on the %dx%d %s matrix %v (options %d, real64=%v)", alg, over.Site, over.Ticks, linalgBudgets(dim)[over.Site], dim, n, m, desc, vals, opt, real)
+		c.Fail("step-clock", alg+"|"+over.Site+"|budget-exceeded", "%s did not finish: loop %s was still running after %d iterations (budget %d for dimension %d) on the %dx%d %s matrix %v (options %d, real64=%v, float32=%v)", alg, over.Site, over.Ticks, linalgBudgets(dim)[over.Site], dim, n, m, desc, vals, opt, real, single)
 	}
 	switch {
 	case pv != nil:
@@ -331,6 +337,6 @@ func RunLinalg(c *core.Ctx) {
 		c.Fail("result-shape", alg+"|wrong-shape", "%s returned without error but %s", alg, shapeErr)
 	}
 	c.Nontriv = n >= 2
-	c.StateStr(fmt.Sprintf("%s|%d|%s|%d|%v|%v", alg, opt, desc, n, real, pv != nil))
+	c.StateStr(fmt.Sprintf("%s|%d|%s|%d|%v|%v|%v", alg, opt, desc, n, real, single, pv != nil))
 	c.Sample = map[string]interface{}{"algorithm": alg, "options": opt, "matrix": fmt.Sprintf("%dx%d %s", n, m, desc), "ticks": counts, "panicked": pv != nil}
 }
